@@ -408,3 +408,7 @@ def replay(case):
            case['with_step'], case['struct'])
     run_job(job, acc)
     return [v for exs in acc.viol_examples.values() for v in exs]
+
+
+RULE += (
+    ' Every world also holds a nested branch (cell/size, cell/nucleus/dna, cell/nucleus/pores/open) with branch-level store_schema flags two levels above the leaves, and a units variable whose custom serializer is named by its first declarer only.')
